@@ -1179,6 +1179,38 @@ pub fn run(a: &Args) {
             }
         }
     }
+    // a LONG file (history shape / capacity: far more entries than any generated case) and many files: recovery
+    // returns every entry, in order — compared with the model (ops I / R / t) and judged directly
+    {
+        let e = |t: u64| { let data = vec![(t % 251) as u8, (t / 251) as u8]; let checksum = crate::cfg::entry_checksum(t, &data); WalEntry { data, timestamp: t, checksum } };
+        for (n, max) in [(2500u64, 1usize << 20), (400, 16 + 3 * 18)] {
+            let c = Case { max, entries: (1..=n).map(e).collect(), all_deltas: false, pre: vec![] };
+            let (store, rot, _) = build(&c);
+            let img = image_of(&store);
+            out.op(format!("I {}", show_image(&img)), format!("ok {}", img.len()));
+            match rot {
+                None => out.violation("C10:panic:rotator", "WalRotator::new / append panicked on a long history", json!({"entries": n})),
+                Some(rot) => {
+                    let rec = recover(&rot);
+                    out.op("R".into(), rec.as_ref().map(|r| show_entries(r)).unwrap_or("crash".into()));
+                    let ok = rec.as_ref().map(|r| r.len() == c.entries.len() && r.iter().zip(c.entries.iter()).all(|(a, b)| same(a, b))).unwrap_or(false);
+                    if !ok {
+                        out.violation("C10:intact:long-history", "recovery of an undamaged long history did not return every appended entry in order", json!({"entries": n, "max_file_size": max, "recovered": rec.map(|r| r.len())}));
+                    }
+                    // the last file cut in its last entry: everything before it comes back
+                    if let Some((name, bytes)) = img.last() {
+                        store.set_file_data(name, bytes[..bytes.len() - 1].to_vec());
+                        let rec = recover(&rot);
+                        out.op(format!("t {} {}", img.len() - 1, bytes.len() - 1), rec.as_ref().map(|r| show_entries(r)).unwrap_or("crash".into()));
+                        if rec.map(|r| r.len()) != Some(c.entries.len() - 1) {
+                            out.violation("C10:prefix:long-history", "a long history cut in its last entry did not come back without exactly that entry", json!({"entries": n}));
+                        }
+                    }
+                    out.count("gen:long-history");
+                }
+            }
+        }
+    }
     local_store_extras(&mut out, &a.out.join("c10-local-extras"));
     let local_dir = a.out.join("c10-local-wal");
     for _ in 0..a.n {
